@@ -64,3 +64,23 @@ func init() {
 }
 
 func TestC17(t *testing.T) { runWorldProp(t, "C17") }
+
+// the same fee book over operators that are opted into several AVSs with several assets (the
+// per-staker split walks every (AVS, asset) pair of an operator)
+func init() {
+	base := *worldProps["C17"]
+	base.Name = "C17AVS"
+	w := map[string]int{
+		"nextBlock": 28, "payFee": 12, "depositLST": 8, "delegate": 14, "undelegate": 5, "associate": 3, "optIn": 2, "optOut": 1,
+		"avsRegister": 7, "avsUpdate": 2, "avsOptIn": 10, "avsOptOut": 2, "avsDeregister": 1, "slash": 1,
+	}
+	base.Gen = GenOpts{Weights: w, HostilePct: 2, ExtremePct: 0, Anchor: true, Tempos: []int{20, 45, 90}, CapBits: 40}
+	base.Config = func(t *rapid.T) sim.Config {
+		cfg := feesConfig(t)
+		cfg.NumAVS = rapid.IntRange(2, 3).Draw(t, "nAVSF")
+		return cfg
+	}
+	registerWorldProp(&base)
+}
+
+func TestC17AVS(t *testing.T) { runWorldProp(t, "C17AVS") }
